@@ -695,6 +695,19 @@ def mon_C06(case):
 def mon_C12(case):
     fails = []
     comp = case.comp
+    if comp == "putresult":
+        # "two results compare equal exactly when they are the same variant with equal payloads, and Clone/Copy preserve that"
+        def show(t):
+            p = t.split(":")
+            return {"P": "Put", "U": "Update(%s)", "E": "Evicted(%s:%s)", "X": "EvictedAndUpdate(%s:%s,%s)"}[p[0]] % tuple(p[1:])
+        for i, l in enumerate(case.lines):
+            t = l.lhs.split()
+            res = l.pos[0].strip() if l.pos else ""
+            if t[0] == "preq" and res != ("true" if t[1] == t[2] else "false"):
+                fails.append(Fail(case, i, "%s == %s evaluates to %s" % (show(t[1]), show(t[2]), res)))
+            if t[0] == "prclone" and res != show(t[1]):
+                fails.append(Fail(case, i, "clone/copy of %s is %s" % (show(t[1]), res)))
+        return fails
     if comp not in RESIDENT:
         return fails
     prev = prev_state(case, 0)
